@@ -359,13 +359,73 @@ def props_proven(E, res):
     return P
 
 
+# ---- power.create_miner: a new miner starts with an empty claim -------------------------------------------------------
+
+def run_create_miner(E):
+    rt, rtref = new_rt(E)
+    pre = setup_power(E, rt)
+    rt.state = pre['st']
+    E.ctx.env['prep'] = pre
+    E.ctx.env['value0'] = rt.value_received
+
+    def hook(E2, rt2, rec, nm):
+        # init's Exec answers with the new actor's ID address and robust address
+        if implied(E2.ctx, b_and(rec.to.proto == 0, rec.to.key == 1)):
+            ch = E2.ctx.choose(3, nm + '.outcome')
+            if ch:
+                return ('fail', None) if ch == 1 else ('syserr', None)
+            ida = E2.materialize(ADDR, 'new_miner')
+            E2.ctx.assume(z3.And(ida.proto == 0, ida.key >= 100))
+            E2.ctx.env['new_miner'] = ida
+            return ('ok', some(BlockV(StructV('ext::init::ExecReturn', {0: ida, 1: E2.materialize(ADDR, 'new_miner_robust')}))))
+        return None
+    rt.send_hook = hook
+    params = LazyV('params', 'fil_actors_runtime::runtime::... ') if False else LazyV('params', 'types::CreateMinerParams')
+    fn = find_fn(E, PW, 'create_miner')
+    return E.run_function(fn, [rtref, params]), rt
+
+
+def props_create_miner(E, res):
+    env = res.ctx.env
+    ctx = res.ctx
+    rt = env['rt']
+    pre = env['prep']
+    if res.kind != 'return':
+        return [('no panic (%s)' % str(res.info)[:60], False)]
+    if is_err(res.value):
+        return [('a failed miner creation commits nothing', rt.commits == 0)]
+    PS = Fields('actors/power/src/state.rs', 'State')
+    CL = Fields('actors/power/src/state.rs', 'Claim')
+    st1 = rt.state
+    g = lambda n, t='BigInt': fget(E, st1, PS[n], t).v
+    P = [('the miner actor is created through the init actor (Exec) and receives the whole value sent', len(rt.sends) == 1 and implied(ctx, b_and(rt.sends[0].to.key == 1, zv(rt.sends[0].method) == 2, rt.sends[0].value == env['value0']))),
+         ('network power totals are unchanged by a new, empty miner', z3.And(g('total_raw_byte_power') == pre['tot_raw'], g('total_quality_adj_power') == pre['tot_qa'],
+                                                                                g('total_bytes_committed') == pre['bytes'], g('total_qa_bytes_committed') == pre['qabytes'])),
+         ('the miner count grows by one', g('miner_count', 'i64') == pre['mc'] + 1),
+         ('nobody is above the consensus minimum because of a creation', g('miner_above_min_power_count', 'i64') == pre['above'])]
+    nm = env.get('new_miner')
+    cm = heap_get(E, fget(E, st1, PS['claims'], CID))
+    if nm is None or not isinstance(cm, MapM):
+        P.append(('claim recorded for the new miner', False))
+        return P
+    fp, fv = final_lookup(E, cm, ('addr', nm.proto, nm.key))
+    P.append(('a claim is recorded for the new miner', fp is True))
+    if fp is True:
+        fv = E.deref(fv)
+        P.append(('the new claim credits no power', z3.And(big(E, fget(E, fv, CL['raw_byte_power'], 'BigInt')) == 0, big(E, fget(E, fv, CL['quality_adj_power'], 'BigInt')) == 0)))
+    return P
+
+
 def build(tier):
     from . import miner_formulas
     proven = [Obligation('miner.Deadline::record_proven_sectors[posts=%d, already posted=%d]' % sh, run_proven(*sh), props_proven,
                          descr='a Window PoSt credits each partition at most once per deadline (no duplicates, not already proven); power credited = skipped delta + recovered + first-time proven (unproven) power; faulty-power memo exact; partitions marked posted',
                          bounds='%d partition(s) in the proof, %d already posted; CUTS: record_skipped_faults, recover_faults (arbitrary results), add_expiration_partitions' % sh, max_paths=100000)
               for sh in ([(1, 0), (1, 1), (2, 0)] if tier == 'quick' else [(1, 0), (1, 1), (2, 0), (2, 1), (3, 0)])]
-    return miner_formulas.build_qa(tier) + proven + [Obligation('miner.Partition::record_missed_post', run_missed_post, props_missed_post,
+    created = [Obligation('power.create_miner', run_create_miner, props_create_miner,
+                          descr='a new miner is created through init.Exec with the value forwarded, gets a claim with zero power; network totals unchanged, miner count + 1',
+                          bounds='one call; power state symbolic under its invariant; init answer typed, failing or a syscall error', max_paths=20000)]
+    return miner_formulas.build_qa(tier) + proven + created + [Obligation('miner.Partition::record_missed_post', run_missed_post, props_missed_post,
                        descr="a missed proof removes exactly the partition's active power (live - faulty - unproven), leaves it contributing nothing, marks all live power faulty and clears recoveries / unproven",
                        bounds='one partition, power memos symbolic under the nesting invariant; CUTS: expiration-queue rescheduling, validate_state', max_paths=2000)] + [Obligation('miner.Deadline::process_deadline_end[partitions=%d]' % n, run_deadline_end(n), props_deadline_end,
                        descr='closing a deadline records a missed proof for exactly the partitions that were not proven (and are not already entirely faulty), once each; power removed / penalised / newly faulty are the sums over those partitions',
